@@ -451,7 +451,9 @@ class WSGITask(Task):
             if isinstance(app_iter, ReadOnlyFileBasedBuffer):
                 cl = self.content_length
                 size = app_iter.prepare(cl)
-                if size:
+                # (a 1xx / 204 / 304 response has no body: the file is then
+                # iterated and ignored like any other iterable)
+                if size and self.has_body:
                     if cl != size:
                         if cl is not None:
                             self.remove_content_length_header()
